@@ -5,17 +5,19 @@
 set -u
 D=$1; LOG=$2
 export GOFLAGS=-mod=mod GOPROXY=off GOSUMDB=off GOTOOLCHAIN=local
-WT=/scratch/confirm_wt
+WT=${CONFIRM_WT:-/scratch/confirm_wt}
 if [ ! -d $WT ]; then git -C /repo worktree add --detach $WT HEAD >/dev/null 2>&1; fi
 cd $WT && git checkout -q --detach $(git -C /repo rev-parse HEAD) && git checkout -- . && git clean -fdq
 run_demo() {
   if [ -f $D/demo_test.go ]; then
-    cp $D/demo_test.go ruleguard/zz_demo_test.go
+    PK=$(grep -m1 '^package ' $D/demo_test.go | awk '{print $2}' | sed 's/_test$//')
+    if [ -f $D/demo_pkg.txt ]; then PDIR=$(cat $D/demo_pkg.txt); elif [ "$PK" = ruleguard ]; then PDIR=ruleguard; else PDIR=$(find . -type d -name "$PK" -not -path './.git/*' | grep -v testdata | head -1 | sed 's#^\./##'); fi
+    cp $D/demo_test.go $PDIR/zz_demo_test.go
     NAME=$(grep -o 'func Test[A-Za-z0-9_]*' $D/demo_test.go | head -1 | sed 's/func //')
-    go test -vet=off -count=1 -run "^$NAME\$" ./ruleguard/ >/tmp/demo.out 2>&1; RC=$?
-    rm -f ruleguard/zz_demo_test.go
+    go test -vet=off -count=1 -run "^$NAME\$" ./$PDIR/ >$WT.demo.out 2>&1; RC=$?
+    rm -f $PDIR/zz_demo_test.go
   else
-    go run $D/demo/main.go >/tmp/demo.out 2>&1; RC=$?
+    go run $D/demo/main.go >$WT.demo.out 2>&1; RC=$?
   fi
   return $RC
 }
@@ -27,8 +29,8 @@ git apply $D/patch.diff
 go build ./... 2>&1 | tail -3; B=$?
 go test -vet=off -count=1 ./ruleguard/... ./internal/... 2>&1 | grep -v "no test files" | tail -8
 T1=$(go test -vet=off -count=1 ./ruleguard/... ./internal/... >/dev/null 2>&1; echo $?)
-if [ "${SKIP_ANALYZER:-0}" = 1 ]; then T2=skipped; else go test -vet=off -count=1 ./analyzer/ >/tmp/an.out 2>&1; T2=$?; tail -2 /tmp/an.out; fi
-run_demo; W1=$?; echo "demo with change: rc=$W1"; tail -5 /tmp/demo.out
+if [ "${SKIP_ANALYZER:-0}" = 1 ]; then T2=skipped; else go test -vet=off -count=1 ./analyzer/ >$WT.an.out 2>&1; T2=$?; tail -2 $WT.an.out; fi
+run_demo; W1=$?; echo "demo with change: rc=$W1"; tail -5 $WT.demo.out
 git checkout -- . ; git clean -fdq
 run_demo; W2=$?; echo "demo without change: rc=$W2"
 echo "RESULT build=$B tests=$T1 analyzer=$T2 demo_with=$W1 demo_without=$W2"
